@@ -48,7 +48,7 @@ class Trace:
             if p[0] in ("call", "run") and ret and ret[0] == 0:
                 call = self.pending_call(i) if p[0] == "run" else p[2:]
                 ci = self.pending_call_index(i) if p[0] == "run" else i
-                self.ack_call[ret[1]] = (i, call)
+                self.ack_call[ret[1]] = (ci if ci is not None else i, call)
                 # an upsert that found its key physically present at call time queues UpdateWeight, otherwise a put
                 k = key_of_call(call)
                 self.ack_is_update[ret[1]] = (call[0] == "upsert" and ci is not None and k in self.store_before(ci))
